@@ -196,6 +196,75 @@ def run_type(res, T, rng, tier):
                     res.violation("C09:strict-flag-leaked", "strictness flag not restored after lenient block", {"type": T})
 
 
+def held_out_of_range(res, T, t, cls):
+    """A controller that HOLDS an out-of-range value (kept by a lenient assignment, as a lenient load keeps it): assigning that
+    same value again in strict mode is an out-of-range assignment like any other."""
+    from rv.errors import ControllerValueError, override_raise_controller_value_errors
+    for sc in t.controllers:
+        if sc.kind not in ("range", "compact", "no_offset"):
+            continue
+        for v in (sc.max + 1, sc.min - 1):
+            m = cls()
+            try:
+                with override_raise_controller_value_errors(False):
+                    setattr(m, sc.name, v)
+            except (ControllerValueError, ValueError):
+                continue
+            if getattr(m, sc.name) != v:
+                res.count("lenient_out_of_range_not_kept")
+                continue
+            res.case((T, sc.name, "held-oor", v))
+            res.count("held_out_of_range_reassignments")
+            case = {"type": T, "controller": sc.name, "value": v, "path": "reassign-held"}
+            try:
+                setattr(m, sc.name, getattr(m, sc.name))
+            except ControllerValueError:
+                res.count("rejections_confirmed")
+                if getattr(m, sc.name) != v:
+                    res.violation(f"C09:prev-lost:{T}.{sc.name}", f"rejected re-assignment of the held value {v} left {getattr(m, sc.name)!r}", case)
+            except Exception as e:
+                res.violation(f"C09:wrong-error:{T}.{sc.name}:reassign-held", f"{T}.{sc.name} = {v} (held, strict) raised {e!r}", case)
+            else:
+                res.violation(f"C09:accepted:{sc.kind}:{T}.{sc.name}:reassign-held",
+                              f"{T}.{sc.name} holds the out-of-range value {v} (kept by a lenient assignment); assigning {v} again in strict mode was accepted", case)
+
+
+def enum_through_metamodule(res, T, t, cls):
+    """An enumerated controller exposed through a MetaModule's user-defined controller keeps its three spellings
+    (value, member, member name) - on a constructed MetaModule and on one that went through a file."""
+    import rv.api as api
+    for idx, sc in enumerate(t.controllers):
+        if sc.kind != "enum" or T in ("MetaModule", "Output"):
+            continue
+        emb = api.Project()
+        target = emb.new_module(cls)
+        mm = api.m.MetaModule(project=emb)
+        mm.user_defined_controllers = 1
+        mm.mappings.values[0] = mm.Mapping((1, idx))
+        mm.update_user_defined_controllers()
+        ecls = getattr(cls, sc.enum)
+        for where, obj in (("constructed", mm), ("loaded", None)):
+            if obj is None:
+                try:
+                    obj = mm.clone()
+                except Exception as e:
+                    res.violation(f"C09:metamodule-proxy-unloadable:{T}.{sc.name}", f"MetaModule exposing {T}.{sc.name} does not save/load: {e!r}", {"type": T, "controller": sc.name})
+                    continue
+            for n, v in sc.members:
+                for how, value in (("by-value", v), ("by-member", ecls[n]), ("by-name", n)):
+                    res.case((T, sc.name, "mm-proxy", where, how, n))
+                    res.count("metamodule_enum_proxy_assignments")
+                    case = {"type": T, "controller": sc.name, "where": where, "how": how, "member": n}
+                    try:
+                        obj.user_defined_1 = value
+                    except Exception as e:
+                        res.violation(f"C09:inrange-raised:{T}.{sc.name}:metamodule-proxy", f"user-defined controller exposing {T}.{sc.name} ({where}): assigning {value!r} ({how}) raised {e!r}", case)
+                        continue
+                    got = obj.user_defined_1
+                    if _val(got) != v:
+                        res.violation(f"C09:readback:{T}.{sc.name}:metamodule-proxy", f"user-defined controller exposing {T}.{sc.name} ({where}): {value!r} ({how}) reads back {got!r}", case)
+
+
 def failed_loads(res):
     """Loads that fail (missing path, unknown module type, truncated file) precede the strict-mode probes."""
     import os
@@ -226,8 +295,11 @@ def run_shard(spec_, res):
     # payload edits, failed constructions.  Defaults and validation of FRESH modules are probed afterwards.
     from .. import hostile
     hostile.run(res, "quick", seed=spec_["shard"])
+    from rv.modules import MODULE_CLASSES
     for T in spec_["types"]:
         run_type(res, T, rng, spec_["tier"])
+        held_out_of_range(res, T, spec.load()[T], MODULE_CLASSES[spec.load()[T].mtype])
+        enum_through_metamodule(res, T, spec.load()[T], MODULE_CLASSES[spec.load()[T].mtype])
         res.count("types_visited")
     # the labelled aliases of a MetaModule's exposed controllers are assignment paths to controllers as well
     from .. import aliasprobe
